@@ -348,7 +348,7 @@ def props_of(conj, sig, group):
         return ps
     if conj == 'ondisk':
         return {'C07', 'C01', 'C02'}
-    if conj in ('class', 'value', 'effect', 'initmatch'):
+    if conj in ('class', 'value', 'effect', 'initmatch', 'populate'):
         ps.add('C01')
         if kind == 'ovl':
             ps.add('C09')
